@@ -38,7 +38,7 @@ def union_stream(seed, n, op='from_data', oracles=('c11',)):
     g = random.Random(seed)
     out = []
     for i in range(n):
-        ge = gen.Gen(g.randrange(1 << 62), max_depth=2)
+        ge = gen.Gen(g.randrange(1 << 62), max_depth=2, noinit=(op != 'roundtrip'))
         ty = ge.gen_union(0)
         if not (isinstance(ty, dict) and 'union' in ty):
             ty = {'union': ['int', 'float', 'str']}
@@ -56,6 +56,14 @@ def union_stream(seed, n, op='from_data', oracles=('c11',)):
             wire = gen.ENC.enc(ge.arbitrary())
         out.append({'id': f'u{seed}:{i}', 'decl': ge.decl, 'op': op, 'ty': ty, 'val': wire, 'spell': ge.r.randrange(2),
                     'stream': 'union', 'oracles': list(oracles)})
+        if ge.r.random() < 0.3 and op == 'from_data':
+            # the same members in another order, nested in builtin generic aliases, later in the SAME process:
+            # an equal-comparing alias must not reuse the earlier converter (member order is semantics)
+            perm = list(ty['union'])
+            ge.r.shuffle(perm)
+            for k, (t1, t2) in enumerate(((ty['union'], perm), (perm, ty['union']))):
+                out.append({'id': f'u{seed}:{i}p{k}', 'decl': ge.decl, 'op': op, 'ty': {'seq': ['list', {'union': list(t1)}]},
+                            'val': {'l': [wire]}, 'spell': 1, 'stream': 'union-permuted', 'oracles': list(oracles)})
     return out
 
 
@@ -194,13 +202,19 @@ PLUGS = {
                 project=proj_verdict_value, oracles=[], disagreement_is_failure=True, exhaustive_part='matrix'),
     'C03': dict(streams=lambda seed, tier: conv_stream(seed, sizes(tier, 1500, 30000), 'try_collect', ['c03']) +
                 with_oracles(gen.scenarios_cond(seed, sizes(tier, 700, 10000)), ['c03'], op='try_collect') +
-                with_oracles(gen.scenarios_shapes(seed, sizes(tier, 500, 8000), op='try_collect'), ['c03']),
+                with_oracles(gen.scenarios_shapes(seed, sizes(tier, 500, 8000), op='try_collect'), ['c03']) +
+                with_oracles(gen.scenarios_tuplelayout(seed, sizes(tier, 500, 8000), op='try_collect'), ['c03']),
                 project=proj_try_collect, oracles=['c03'], disagreement_is_failure=False),
     'C04': dict(streams=lambda seed, tier: conv_stream(seed, sizes(tier, 1500, 30000), 'from_data', ['c04']) +
-                [dict(s, oracles=['c04']) for s in matrix_stream(seed)],
+                [dict(s, oracles=['c04']) for s in matrix_stream(seed)] +
+                with_oracles(gen.scenarios_tuplelayout(seed, sizes(tier, 500, 8000)), ['c04']) +
+                with_oracles(gen.scenarios_shapes(seed, sizes(tier, 400, 6000), op='from_data'), ['c04']) +
+                with_oracles(gen.scenarios_cond(seed, sizes(tier, 500, 8000)), ['c04']) +
+                with_oracles(gen.scenarios_tagged(seed, sizes(tier, 400, 6000)), ['c04']),
                 project=proj_verdict_value, oracles=['c04'], disagreement_is_failure=False),
     'C07': dict(streams=lambda seed, tier: conv_stream(seed, sizes(tier, 1500, 30000), 'try_collect', ['c07']) +
-                with_oracles(gen.scenarios_shapes(seed, sizes(tier, 800, 12000), op='try_collect'), ['c07']),
+                with_oracles(gen.scenarios_shapes(seed, sizes(tier, 800, 12000), op='try_collect'), ['c07']) +
+                with_oracles(gen.scenarios_tuplelayout(seed, sizes(tier, 500, 8000), op='try_collect'), ['c07']),
                 project=proj_full, oracles=['c07'], disagreement_is_failure=True),
     'C08': dict(streams=lambda seed, tier: conv_stream(seed, sizes(tier, 1500, 30000), 'render', ['c08']) +
                 with_oracles(gen.scenarios_shapes(seed, sizes(tier, 1000, 15000), op='render'), ['c08']),
@@ -220,7 +234,8 @@ PLUGS = {
                 project=proj_full, oracles=['c14'], disagreement_is_failure=True),
     'C15': dict(streams=lambda seed, tier: gen.scenarios_process(seed, sizes(tier, 800, 12000), generic_share=0.0) +
                 [s for s in conv_stream(seed, sizes(tier, 3000, 40000), 'from_data', []) if '"cls"' in json.dumps(s['ty'])] +
-                [s for s in conv_stream(seed + 5, sizes(tier, 1500, 20000), 'roundtrip', []) if '"cls"' in json.dumps(s['ty'])],
+                [s for s in conv_stream(seed + 5, sizes(tier, 1500, 20000), 'roundtrip', []) if '"cls"' in json.dumps(s['ty'])] +
+                gen.scenarios_tuplelayout(seed, sizes(tier, 600, 9000)) + gen.scenarios_shapes(seed, sizes(tier, 400, 6000), op='from_data'),
                 project=proj_full, oracles=[], disagreement_is_failure=True),
     'C17': dict(streams=lambda seed, tier: gen.scenarios_process(seed, sizes(tier, 1500, 25000), generic_share=0.7),
                 project=proj_full, oracles=[], disagreement_is_failure=True),
